@@ -28,8 +28,8 @@ CLAIMS = {
         technique="backward slicing / taint over statement CFGs + dimension type-check of decorator and substitution tables", ref="DESIGN.md §2 C02"),
     "C04": dict(
         text="Exhaustive set comparison of every guard declaration against the decorated function's parameters (1751 guards) and typing of "
-             "every guard expression (2398), plus must-pass-through / dominance / slice rules K1-K7 over the ~150 lines of gate code that "
-             "every guarded call goes through (every checked component derives from its element; no truncating zip over vector components). A guard that names no parameter is silently ignored at run time, so only this comparison "
+             "every guard expression (2398), plus must-pass-through / dominance / slice rules K1-K8 over the ~150 lines of gate code that "
+             "every guarded call goes through (every checked component derives from its element; no truncating zip over vector components; the dimension a QuantityVector infers for itself comes only from a non-angle component whose scale factor is not zero/infinite/NaN). A guard that names no parameter is silently ignored at run time, so only this comparison "
              "finds it; the path rules hold for every argument tuple and call style because they are facts about all CFG paths.",
         note="Trusts SymPy's equivalent_dims/is_dimensionless and inspect.signature.bind. One recorded known finding (guard `position_vector` "
              "pinned by an existing test).",
@@ -120,7 +120,7 @@ CLAIMS = {
              "generic functions OF THE POINT and generic parametrisations (undefined functions of t / (u, v)), so that where a field is evaluated is decided too; every sympy.integrate call is captured and its integrand and limits are "
              "decided, in exact normal form, to be the differential forms Stokes', Green's and Gauss' theorems are about (A.dr, A.(r_u x r_v), "
              "flux of curl over the same surface, A_x y' - A_y x', div F |r_u x r_v|, div F h1h2h3 with each variable paired with its own "
-             "limits); no assumption-forcing simplification (posify, force=True) touches an integrand factor. A wrong integrand, normal "
+             "limits); no assumption-forcing simplification (posify, force=True) touches an integrand factor; a curvilinear field is refused by the line integral or integrated with the system's line element; a field that stores a value is substituted at the point when applied (the same function of the point the operators differentiate). A wrong integrand, normal "
              "orientation, area/volume element or limit pairing breaks the theorems for every field.",
         note="NOT decided: that sympy.integrate/simplify evaluate the integrals correctly, i.e. the numerical agreement of the two sides; the "
              "theorems themselves are trusted mathematics; curl/div correctness is C12.",
